@@ -203,16 +203,20 @@ Definition new_owed (root : dev) (now : Z) (o : sop) : list owed :=
   | _ => []
   end.
 
-Definition mon_step (root : dev) (k : mon) (o : sop) (ob : step_obs) : mon * list N :=
-  let now' := match o with OAdvance dt => (k_now k + dt)%Z | _ => k_now k end in
-  let rs := filter is_resp (o_sent ob) in
+(* clauses 1 and 2: the answers seen in one step against what is owed *)
+Definition mon_owed (root : dev) (k : mon) (o : sop) (now' : Z) (rs : list dgram) : list owed * list N :=
   let owed1 := k_owed k ++ new_owed root (k_now k) o in
   let upd := map (upd_owed now' rs) owed1 in
-  let f_owed := flat_map snd upd in
-  let f_unsol := if forallb (fun g => existsb (fun w => w_dest w =? g_dest g) owed1) rs then [] else [1] in
-  (* advertisements *)
-  let alives := filter is_alive (o_sent ob) in
-  let byes := filter is_byebye (o_sent ob) in
+  (map fst upd,
+   flat_map snd upd ++
+   (if forallb (fun g => existsb (fun w => w_dest w =? g_dest g) owed1) rs then [] else [1])).
+
+(* clause 3: one ssdp:alive per announce interval while running, going round the table; on stop one
+   ssdp:byebye for every entry of the table; nothing else *)
+Definition mon_adv (root : dev) (k : mon) (o : sop) (now' : Z) (sent : list dgram)
+  : option Z * list pair * list N :=
+  let alives := filter is_alive sent in
+  let byes := filter is_byebye sent in
   let n_exp := match k_next k with Some a => alive_count a now' | None => O end in
   let exp_times := match k_next k with
                    | Some a => map (fun j => (a + Z.of_nat j * announce_interval_ms)%Z) (seq 0 n_exp)
@@ -225,15 +229,19 @@ Definition mon_step (root : dev) (k : mon) (o : sop) (ob : step_obs) : mon * lis
                  then perm_eqb pair_eqb (map gpair byes) (spec_all root) &&
                       forallb (fun g => (g_time g =? k_now k)%Z) byes
                  else match byes with [] => true | _ => false end in
-  let others_ok := forallb (fun g => is_resp g || is_alive g || is_byebye g) (o_sent ob) in
-  let f_adv := if seen_ok && times_ok && byes_ok && others_ok then [] else [3] in
+  let others_ok := forallb (fun g => is_resp g || is_alive g || is_byebye g) sent in
   let next' := if stopping then None
                else match k_next k with
                     | Some a => Some (a + Z.of_nat n_exp * announce_interval_ms)%Z
                     | None => None
                     end in
-  ({| k_now := now'; k_owed := map fst upd; k_next := next'; k_seen := seen' |},
-   f_owed ++ f_unsol ++ f_adv).
+  (next', seen', if seen_ok && times_ok && byes_ok && others_ok then [] else [3]).
+
+Definition mon_step (root : dev) (k : mon) (o : sop) (ob : step_obs) : mon * list N :=
+  let now' := match o with OAdvance dt => (k_now k + dt)%Z | _ => k_now k end in
+  let '(owed', f1) := mon_owed root k o now' (filter is_resp (o_sent ob)) in
+  let '(next', seen', f3) := mon_adv root k o now' (o_sent ob) in
+  ({| k_now := now'; k_owed := owed'; k_next := next'; k_seen := seen' |}, f1 ++ f3).
 
 (* ------------------------------------------------------------------ clauses on single datagrams *)
 (* the device a (type, USN) pair describes *)
